@@ -92,19 +92,21 @@ theorem slice_misses_registry {cfg : Cfg} {d : TyDef} {tag : String} (h : d ≠ 
     regLoad cfg (.slice d) tag = none :=
   regLoad_slice_none h
 
-/-- **map key** (looked up under ""). -/
+/-- **map key** (looked up under ""). `hps`: the value codec is not the protobuf
+repeated form of a slice, which the map builder rejects (a map entry holds one
+value field). -/
 theorem registered_wins_map_key {cfg : Cfg} {k v : TyDef} {n tag : String} {c vc : Ty}
     (hn : k.regName = some n) (h : LastReg cfg n "" c) (hk : v.kind ≠ .map)
-    (hv : build cfg v "" = .ok vc) :
+    (hv : build cfg v "" = .ok vc) (hps : vc.isProtoSlice = false) :
     build cfg (.map k v) tag = .ok (.map c vc (tag == "proto")) :=
-  build_map_key_registered (customLoad_of_last hn h) hk hv
+  build_map_key_registered (customLoad_of_last hn h) hk hv hps
 
 /-- **map value** (looked up under ""). -/
 theorem registered_wins_map_val {cfg : Cfg} {k v : TyDef} {n tag : String} {c kc : Ty}
     (hn : v.regName = some n) (h : LastReg cfg n "" c) (hk : v.kind ≠ .map)
-    (hkc : build cfg k "" = .ok kc) :
+    (hkc : build cfg k "" = .ok kc) (hps : c.isProtoSlice = false) :
     build cfg (.map k v) tag = .ok (.map kc c (tag == "proto")) :=
-  build_map_val_registered (customLoad_of_last hn h) hk hkc
+  build_map_val_registered (customLoad_of_last hn h) hk hkc hps
 
 /-- **struct field**: the field `g` with tag `plenc:"<idx>[,<option>]"` (option ≠
 `intern`) of a type registered under that option gets `c`. `Res.map` threads the
@@ -153,14 +155,14 @@ theorem registered_wins_named_sites {cfg : Cfg} {m : String} {d : TyDef} {n tag 
     (hn : d.regName = some n) (hk : d.kind ≠ .map) :
     (LastReg cfg n tag c → buildNamed cfg m (.ptr d) tag = .ok (.ptr c)) ∧
     (LastReg cfg n "" c → buildNamed cfg m (.slice d) tag = sliceWrap cfg tag (!d.isFloatKind) c) ∧
-    (LastReg cfg n "" c → ∀ v vc, v.kind ≠ .map → build cfg v "" = .ok vc →
+    (LastReg cfg n "" c → ∀ v vc, v.kind ≠ .map → build cfg v "" = .ok vc → vc.isProtoSlice = false →
         buildNamed cfg m (.map d v) tag = .ok (.map c vc (tag == "proto"))) ∧
-    (LastReg cfg n "" c → ∀ k kc, build cfg k "" = .ok kc →
+    (LastReg cfg n "" c → ∀ k kc, build cfg k "" = .ok kc → c.isProtoSlice = false →
         buildNamed cfg m (.map k d) tag = .ok (.map kc c (tag == "proto"))) :=
   ⟨fun h => buildNamed_ptr_registered (customLoad_of_last hn h) hk,
    fun h => buildNamed_slice_registered (customLoad_of_last hn h) hk,
-   fun h _ _ hv hb => buildNamed_map_key_registered (customLoad_of_last hn h) hv hb,
-   fun h _ _ hb => buildNamed_map_val_registered (customLoad_of_last hn h) hk hb⟩
+   fun h _ _ hv hb hps => buildNamed_map_key_registered (customLoad_of_last hn h) hv hb hps,
+   fun h _ _ hb hps => buildNamed_map_val_registered (customLoad_of_last hn h) hk hb hps⟩
 
 /-- the same in a world of instances: after `register i n tag c`, and whatever is
 done to other instances or under other keys, instance `i` answers `c`. -/
